@@ -3,7 +3,7 @@
    mid-rule extraction, ActionVars.resolve, goParserAction: left()/first()/last() and the slot arithmetic).
    Proofs: Gram/ActionRefs_proofs.v, Gram/ActionNames_proofs.v (the Names table). *)
 From Coq Require Import List NArith ZArith Bool Arith.
-From TM Require Import Gram.ActionRefs Gram.ActionRefs_proofs Gram.ActionNames_proofs.
+From TM Require Import Gram.ActionRefs Gram.ActionRefs_proofs Gram.ActionNames_proofs Gram.ActionMarks_proofs.
 Import ListNotations.
 Local Open Scope nat_scope.
 
@@ -68,7 +68,7 @@ Theorem C16_sites_run_in_agreeing_states : forall tab cas l1 site l2 base ch sta
       match site with
       | LMid cs => run_cmds tab cas cs rm base st (mkE VNil cur cur)
       | LFinal cs => run_cmds tab cas cs rm base st (mkE VNil (first_off st cur) cur)
-      | LRef _ => []
+      | LRef _ | LMark _ => []
       end ++ after.
 Proof. exact site_outputs. Qed.
 
@@ -221,6 +221,54 @@ Proof.
   intro pos. destruct pos as [|[|[|pos]]]; cbn; eauto.
 Qed.
 
+
+(* ---------- state markers (.name) ----------
+   compiler/syntax.go convertPart gives a state marker no position and no name; compiler.go traverse appends it
+   to rule.RHS (for the LALR generator) but neither counts it in numRefs nor records it in actualPos, and
+   SymRefCount / RuleLen skip it: a marker occupies no stack slot and is not counted by $N.
+   [erase_marks body] is the rule as written with every marker removed; [drop_marks] removes them from an
+   expansion. *)
+
+(* markers_transparent: for every rule body, every derivation (sel), every stack below the rule and all children,
+   each action of the rule logs exactly the values it logs in the rule without the markers -- so all the
+   theorems above about $N / $name / ${..offset} hold verbatim for rules with markers anywhere (before the
+   referenced symbols, between them, at the end, after a mid-rule action). *)
+Theorem C16_markers_transparent : forall tab body lead sel base ch start,
+  run_node tab (erase_marks body) lead sel base ch start = run_node tab body lead sel base ch start.
+Proof. exact markers_transparent. Qed.
+
+(* ... the Names / MaxPos tables recorded for the commands are the same, and so is the next free position *)
+Theorem C16_markers_keep_tables : forall body,
+  c_cmds (snd (convert_rule (erase_marks body))) = c_cmds (snd (convert_rule body)) /\
+  c_pos (snd (convert_rule (erase_marks body))) = c_pos (snd (convert_rule body)).
+Proof. exact markers_keep_tables. Qed.
+
+(* ... and the positions an expansion mentions (what $N counts) do not see the markers *)
+Theorem C16_markers_have_no_position : forall l, positions (drop_marks l) = positions l.
+Proof. exact markers_have_no_position. Qed.
+
+(* The one thing a marker changes: compiler.go refuses to extract a mid-rule action from a rule that already
+   has a marker on its right-hand side ("mixing mid-rule actions with state markers is not supported"),
+   [rule_mixes]. A rule without markers is never refused for that reason. *)
+Theorem C16_unmarked_rule_never_mixes : forall body, rule_mixes (erase_marks body) = false.
+Proof. exact unmarked_rule_never_mixes. Qed.
+
+(* ta .m tb[x] tc? .n { $x, $1, ${2.offset}, ${0.endoffset} } with and without tc: $1 is tb, not the marker;
+   .m ta {c} tb and ta {c} .m tb are refused, ta {c} tb .m tc {d} is not *)
+Example C16_marker_example :
+  let body := PSeq (PSym 1 1 0) (PSeq (PMark 0) (PSeq (PAlias 1000 (PSym 2 2 0))
+              (PSeq (POpt (PSym 3 3 0)) (PSeq (PMark 1) (PCmd 7))))) in
+  let tab := [(7%N, [(RName (1000%N, None), PValue); (RNum 1, PValue); (RNum 2, POffset); (RNum 0, PEndoffset)])] in
+  run_node tab body false [true] [mkE (V 99) 0 1] [mkE (V 4) 2 3; mkE (V 5) 3 4; mkE (V 6) 4 5] 2%Z
+    = [(7%N, [AVal 5; AVal 5; AInt 4%Z; AInt 3%Z])] /\
+  run_node tab body false [false] [mkE (V 99) 0 1] [mkE (V 4) 2 3; mkE (V 5) 3 4] 2%Z
+    = [(7%N, [AVal 5; AVal 5; AM1; AInt 3%Z])] /\
+  rule_mixes body = false /\
+  rule_mixes (PSeq (PMark 0) (PSeq (PSym 1 1 0) (PSeq (PCmd 5) (PSym 2 2 0)))) = true /\
+  rule_mixes (PSeq (PSym 1 1 0) (PSeq (PCmd 5) (PSeq (PMark 0) (PSym 2 2 0)))) = true /\
+  rule_mixes (PSeq (PSym 1 1 0) (PSeq (PCmd 5) (PSeq (PSym 2 2 0) (PSeq (PMark 0) (PSeq (PSym 3 3 0) (PCmd 6)))))) = false.
+Proof. cbv zeta. repeat split; vm_compute; reflexivity. Qed.
+
 Print Assumptions C16_slot_reads_own_entry.
 Print Assumptions C16_ref_binds_numeric.
 Print Assumptions C16_ref_binds_named.
@@ -233,3 +281,7 @@ Print Assumptions C16_top_table_exact.
 Print Assumptions C16_final_action_table_exact.
 Print Assumptions C16_named_ref_denotes_occurrence.
 Print Assumptions C16_first_last_bind.
+Print Assumptions C16_markers_transparent.
+Print Assumptions C16_markers_keep_tables.
+Print Assumptions C16_markers_have_no_position.
+Print Assumptions C16_unmarked_rule_never_mixes.
